@@ -160,7 +160,13 @@ def body_locate(c, ctx):
         break
     if inside and not ctx.failures:
         x = np.array([p[1] for p in inside]).T
-        cells = np.asarray(finder(*x))
+        try:
+            cells = np.asarray(finder(*x))
+        except (ValueError, IndexError) as e:
+            # every class was accepted on its own: in the batch another search path (other array shapes, other rounding) rejects one
+            ctx.fail('domain_point_rejected', f'batch of {len(inside)} points of the meshed domain, each class accepted on its own, '
+                     f'raises {type(e).__name__}: {e}', pclass='batch', **sig)
+            return
         for j, p in enumerate(inside):
             if not contains(m, kind, int(cells[j]), p[1])[0]:
                 ctx.fail('located_cell_does_not_contain_point', f'batch of {len(inside)} points: point {j}', pclass='batch', **sig)
@@ -238,7 +244,12 @@ def body_eval(c, ctx):
     got = np.asarray(Pm @ u)
     # independent evaluation: brute-force located cell, independently inverted reference point, shared-points gbasis path
     finder = m.element_finder()
-    cells = np.asarray(finder(*x))
+    try:
+        cells = np.asarray(finder(*x))
+    except ValueError as e:
+        if 'outside' in str(e):
+            raise Reject()      # a second, fresh finder rejects what the basis' own accepted (rounding): judged by the locate sub-check
+        raise
     mapping = m.mapping()
     want = []
     for j, p in enumerate(pts):
@@ -273,14 +284,25 @@ def body_eval(c, ctx):
     # (every point, each asked twice in a row, then the sequence backwards: what was evaluated before must not matter)
     npt = len(pts)
     for j in [q for k_ in range(npt) for q in (k_, k_)] + list(range(npt))[::-1]:
-        one = np.asarray(f2(x[:, j:j + 1]))
+        try:
+            one = np.asarray(f2(x[:, j:j + 1]))
+        except ValueError as e:
+            if 'outside' in str(e):
+                continue        # accepted in the batch, rejected alone (rounding at the finder's tolerance): locate sub-check
+            raise
         ref = wshape[..., j:j + 1]
         if one.shape != ref.shape or not np.allclose(one, ref, rtol=0, atol=1e-9 * mag):
             ctx.fail('interpolator_single_points', f'{lab}: evaluating point {j} on its own gives {one.ravel()[:4]}, expected {ref.ravel()[:4]}', **sig)
             break
     # point source: inner product of a Dirac delta with the test functions
     if tensor == 0:
-        b = basis.point_source(x[:, 0])
+        try:
+            b = basis.point_source(x[:, 0])
+        except ValueError as e:
+            if 'outside' not in str(e):
+                raise
+            b = None
+    if tensor == 0 and b is not None:
         if b.shape != (basis.N,) or abs(b @ u - wflat[0]) > 1e-9 * mag:
             ctx.fail('point_source', f'{lab}: point_source(x) . u = {b @ u if b.shape == (basis.N,) else b.shape} vs {wflat[0]}', **sig)
     # the interpolator applied to the quadrature points agrees with interpolation of the coefficient vector
